@@ -17,8 +17,19 @@ from .. import filters as FL
 
 HEADINGS = [(1, 0), (4, 1), (2, 1), (1, 1), (1, 2), (0, 1), (-1, 2), (-1, 1), (-2, 1), (-4, 1), (3, -1), (1, -1)]
 TILTS = {"level": (1, 0, 0, 0), "inverted": (0, 1, 0, 0), "x-up": (1, 0, 1, 0), "x-down": (1, 0, -1, 0), "y-up": (1, 1, 0, 0), "y-down": (1, -1, 0, 0),
-         "inverted-y": (0, 0, 1, 0)}
-HIST_CLASSES = ["random", "decades", "level", "inverted", "x-up", "x-down", "y-up", "y-down", "inverted-y"]
+         "inverted-y": (0, 0, 1, 0),
+         # pure pitch / pure roll sweeps: one body axis stays exactly horizontal (a_y = 0 resp. a_x = 0) while the other two sweep the circle
+         "pitched": [(2, 0, 1, 0), (3, 0, 1, 0), (5, 0, 2, 0), (4, 0, -1, 0), (7, 0, 3, 0), (3, 0, -2, 0), (1, 0, 2, 0), (1, 0, -3, 0), (9, 0, 1, 0), (2, 0, 5, 0)],
+         "rolled": [(2, 1, 0, 0), (3, 1, 0, 0), (5, 2, 0, 0), (4, -1, 0, 0), (7, 3, 0, 0), (3, -2, 0, 0), (1, 2, 0, 0), (1, -3, 0, 0), (9, 1, 0, 0), (2, 5, 0, 0)]}
+HIST_CLASSES = ["random", "decades", "level", "inverted", "x-up", "x-down", "y-up", "y-down", "inverted-y", "pitched", "rolled"]
+
+
+STREAM_BOTH = {
+    "Madgwick": [("IMU", lambda o, q, g, a, m: o.updateIMU(q, g, a)), ("MARG", lambda o, q, g, a, m: o.updateMARG(q, g, a, m))],
+    "Mahony": [("IMU", lambda o, q, g, a, m: o.updateIMU(q, g, a)), ("MARG", lambda o, q, g, a, m: o.updateMARG(q, g, a, m))],
+    "AQUA": [("IMU", lambda o, q, g, a, m: o.updateIMU(q, g, a)), ("MARG", lambda o, q, g, a, m: o.updateMARG(q, g, a, m))],
+    "EKF": [("IMU", lambda o, q, g, a, m: o.update(q, g, a)), ("MARG", lambda o, q, g, a, m: o.update(q, g, a, m))],
+}
 
 
 def pose_history(kind, conv, n):
@@ -28,7 +39,10 @@ def pose_history(kind, conv, n):
     acc, mag = [], []
     for k in range(n):
         hd = HEADINGS[k % len(HEADINGS)]
-        u = qmul_int((hd[0], 0, 0, hd[1]), TILTS[kind])       # heading about z, then the tilt
+        tilt = TILTS[kind]
+        if isinstance(tilt, list):
+            tilt = tilt[(k // 2) % len(tilt)]
+        u = qmul_int((hd[0], 0, 0, hd[1]), tilt)       # heading about z, then the tilt
         R = core.g_rot(u)
         acc.append(R.T @ np.array(g, dtype=float) * 9.81)
         mag.append(R.T @ np.array(h, dtype=float) / math.sqrt(5) * 48.0)
@@ -69,7 +83,8 @@ def run_cfg(args):
                         gyr = rng.normal(size=(n, 3)) * 1e-3
                     t.calls += 1
                     t.keys.add((cname, cfg["gain"], cfg["rate"], hc, n, s))
-                    o = core.outcome(lambda: FL.batch(cfg, gyr, acc, mag)[1])
+                    built = []
+                    o = core.outcome(lambda: (built.append(FL.batch(cfg, gyr, acc, mag)), built[0][1])[1])
                     case = {"cfg": cfg, "history": hc, "n": n, "variant": s, "acc0": acc[0], "mag0": mag[0]}
                     pose = "canonical-pose" if hc not in ("random", "decades") else "random"
                     case["pose"] = hc
@@ -82,6 +97,20 @@ def run_cfg(args):
                     t.events.append({"cfg": cfg, "n": n, "rows": rows, "valid": bad is None})
                     if bad:
                         t.fail("C03|%s|%s|%s" % (cname, bad, pose), dict(case, got=np.asarray(o[1])[:3]))
+                    elif n == lengths[0] and cfg["rep"] == "quaternion" and cfg["f"] in STREAM_BOTH:
+                        # the same object keeps serving single updates of either sensor combination afterwards
+                        obj = built[0][0]
+                        qk = np.asarray(o[1], dtype=float)[-1]
+                        for arch2, call in STREAM_BOTH[cfg["f"]]:
+                            t.calls += 1
+                            o2 = core.outcome(lambda: np.asarray(call(obj, qk.copy(), gyr[-1].copy(), acc[-1].copy(), mag[-1].copy()), dtype=float))
+                            name2 = "%s then update[%s]" % (cname, arch2)
+                            if o2[0] != "ok":
+                                t.fail("C03|%s|raises-%s|%s" % (name2, o2[1], pose), dict(case, err=o2[2]))
+                            else:
+                                b2 = FL.validity(cfg, o2[1].reshape(1, -1) if o2[1].ndim == 1 else o2[1], 1)
+                                if b2:
+                                    t.fail("C03|%s|%s|%s" % (name2, b2, pose), dict(case, got=o2[1]))
         if len(t.samples) < 2:
             t.samples.append({"cfg": cfg, "history_classes": HIST_CLASSES, "lengths": lengths})
     return t
@@ -89,8 +118,9 @@ def run_cfg(args):
 
 def run(chk):
     quick = chk.tier == "quick"
-    chk.rule = ("every configuration of the TLC-enumerated catalogue x 9 history classes (seeded random, magnitudes over decades, 7 "
-                "exact canonical pose families at 12 headings in 2 measurement conventions) x lengths; distinct = distinct "
+    chk.rule = ("every configuration of the TLC-enumerated catalogue x 11 history classes (seeded random, magnitudes over decades, 7 "
+                "exact canonical pose families and pure-pitch / pure-roll sweeps at 12 headings in 2 measurement conventions; recursive "
+                "filters additionally serve one IMU and one MARG update on the batch-built object) x lengths; distinct = distinct "
                 "(configuration, history class, length, variant); all non-trivial (no identity-only histories)")
     chk.assume("valid = one row per sample, real dtype, finite, |q| = 1 +- 1e-9 (or R R^T = I, det = 1 +- 1e-9 / finite angle triple)")
     res = tlc.run_tlc("MC_FilterLifecycle", core.spec_cfg("MC_FilterLifecycle_catalogue"), timeout=900)
